@@ -81,4 +81,58 @@ theorem rhsAmp_two_equal_phase (d t x1 x2 y1 y2 : ℝ) :
   · linear_combination (-(d * y2)) * h
   · linear_combination (d * y1) * h
 
+/-! ## the hop integral has a zero diagonal (`hop_int.mul_(1.0 - eye)`) -/
+
+theorem hopIntegral_diag (c s : ℝ → ℝ) (dt : ℝ) (x y th : List ℝ) (nd : List (List ℝ)) (a : Nat)
+    (row : List ℝ) (h : (hopIntegral c s dt x y th nd)[a]? = some row) (v : ℝ)
+    (hv : row[a]? = some v) : v = 0 := by
+  simp only [hopIntegral, List.getElem?_map, List.getElem?_zipIdx, Option.map_eq_some_iff] at h
+  obtain ⟨⟨⟨ui, r⟩, i⟩, ⟨⟨p, hp, hpe⟩, rfl⟩⟩ := h
+  simp only [Prod.mk.injEq] at hpe
+  obtain ⟨rfl, rfl⟩ := hpe
+  simp only [List.getElem?_map, List.getElem?_zipIdx, Option.map_eq_some_iff] at hv
+  obtain ⟨⟨⟨uj, dij⟩, j⟩, ⟨⟨q, hq, hqe⟩, rfl⟩⟩ := hv
+  simp only [Prod.mk.injEq] at hqe
+  obtain ⟨rfl, rfl⟩ := hqe
+  simp
+
+/-! ## two states, constant coupling, equal energies: the exact RK4 amplification factor -/
+
+/-- `R(z) R(-z)` restricted to the rotation generator: `1 − z⁶/72 + z⁸/576` -/
+noncomputable def rk4Factor (z : ℝ) : ℝ := 1 - z ^ 6 / 72 + z ^ 8 / 576
+
+theorem two_state_substep (ofNat : ℕ → ℝ) (dt hbar : ℝ) (nsub : ℕ) (tau d E δ θ x1 x2 y1 y2 : ℝ) :
+    ∃ x1' x2' y1' y2' θ' : ℝ,
+      substep Real.cos Real.sin (mkConsts ofNat dt hbar nsub) tau [E, E] [δ, δ] [[0, d], [-d, 0]]
+        [[0, 0], [0, 0]] [x1, x2] [y1, y2] [θ, θ] = ([x1', x2'], [y1', y2'], [θ', θ']) ∧
+      totalPopulation [x1', x2'] [y1', y2'] =
+        rk4Factor (d * (mkConsts ofNat dt hbar nsub).dtSub) * totalPopulation [x1, x2] [y1, y2] := by
+  refine ⟨?_, ?_, ?_, ?_, ?_, ?h1, ?h2⟩
+  case h1 =>
+    simp only [substep, matAxpy, axpy, axmy, rkComb, List.zipWith_cons_cons, List.zipWith_nil_right,
+      mul_zero, add_zero, rhsAmp_two_equal_phase, List.map_cons, List.map_nil]
+    rfl
+  case h2 =>
+    simp only [totalPopulation, population, List.zipWith_cons_cons, List.zipWith_nil_right, sumL_cons,
+      sumL_nil, mkConsts, rk4Factor]
+    norm_num
+    ring
+
+theorem two_state_loop (ofNat : ℕ → ℝ) (dt hbar : ℝ) (nsub : ℕ) (d E δ : ℝ) (c : ℕ) :
+    ∀ (s : ℕ) (θ x1 x2 y1 y2 : ℝ), ∃ x1' x2' y1' y2' θ' : ℝ,
+      loop Real.cos Real.sin ofNat (mkConsts ofNat dt hbar nsub) [E, E] [δ, δ] [[0, d], [-d, 0]]
+        [[0, 0], [0, 0]] c s ([x1, x2], [y1, y2], [θ, θ]) = ([x1', x2'], [y1', y2'], [θ', θ']) ∧
+      totalPopulation [x1', x2'] [y1', y2'] =
+        rk4Factor (d * (mkConsts ofNat dt hbar nsub).dtSub) ^ c * totalPopulation [x1, x2] [y1, y2] := by
+  induction c with
+  | zero => intro s θ x1 x2 y1 y2; exact ⟨x1, x2, y1, y2, θ, rfl, by simp⟩
+  | succ c ih =>
+    intro s θ x1 x2 y1 y2
+    obtain ⟨a1, a2, b1, b2, t, h1, h2⟩ :=
+      two_state_substep ofNat dt hbar nsub (ofNat s * (mkConsts ofNat dt hbar nsub).invNsub) d E δ θ x1 x2 y1 y2
+    obtain ⟨a1', a2', b1', b2', t', h1', h2'⟩ := ih (s + 1) t a1 a2 b1 b2
+    refine ⟨a1', a2', b1', b2', t', ?_, ?_⟩
+    · simp only [loop]; rw [h1, h1']
+    · rw [h2', h2, pow_succ]; ring
+
 end RK4
